@@ -13,6 +13,7 @@ package main
 import (
 	"bytes"
 	"fmt"
+	"math/big"
 	"math/rand"
 	"runtime/debug"
 	"strings"
@@ -20,6 +21,7 @@ import (
 	"github.com/ethereum/go-ethereum/common"
 	"github.com/ethereum/go-ethereum/core/rawdb"
 	"github.com/ethereum/go-ethereum/core/state"
+	"github.com/ethereum/go-ethereum/core/stateless"
 	"github.com/ethereum/go-ethereum/core/types"
 	"github.com/ethereum/go-ethereum/trie"
 
@@ -38,6 +40,7 @@ type hist struct {
 	env      *sd.Env
 	fork     sd.Fork
 	prefetch bool
+	witness  bool // collect a stateless witness while executing (must not change any result)
 	genesis  []sd.GenesisAccount
 	ops      []sd.Op // ops of the main line (witness)
 	copyOps  []sd.Op
@@ -348,7 +351,11 @@ func (h *hist) run(rng *rand.Rand) {
 	for b := 0; b < nblocks && h.fail == nil; b++ {
 		blockStart := p.M.Copy()
 		if h.prefetch {
-			p.S.StartPrefetcher("verif", nil)
+			var w *stateless.Witness
+			if h.witness {
+				w, _ = stateless.NewWitness(&types.Header{Number: new(big.Int).SetUint64(p.Block)}, nil, false)
+			}
+			p.S.StartPrefetcher("verif", w)
 		}
 		ntx := 1 + rng.Intn(4)
 		// copy point for this block: 0 none, 1 between transactions, 2 mid-transaction
@@ -474,7 +481,7 @@ func (h *hist) run(rng *rand.Rand) {
 }
 
 func run(r *vrt.Run) {
-	r.Rule("history i: rule set Forks[i mod 10], database kind (hash / hash+snapshot tree / path / path with 4 KiB write buffer) = (i/10) mod 4, prefetcher on/off, start state empty or random committed state; 2-6 (thorough 2-13) blocks of 1-4 transactions of 3-16 ops from the C13 call-pattern generator with 20% destruction/re-creation bias, a coinbase credit per block, optional explicit IntermediateRoot before Commit, a fresh state.New per block; in 1/3 of the blocks a Copy() is taken between or in the middle of a transaction (possibly with open frames), the copy runs its own suffix and is committed as a sibling block before or after the original; occasional triedb.Commit. non-trivial signature = (rule set, db kind, prefetcher, resurrection kinds seen, copy point kind)")
+	r.Rule("history i: rule set Forks[i mod 10], database kind (hash / hash+snapshot tree / path / path with 4 KiB write buffer) = (i/10) mod 4, prefetcher on/off (a third of those with witness collection), start state empty or random committed state; 2-6 (thorough 2-13) blocks of 1-4 transactions of 3-16 ops from the C13 call-pattern generator with 20% destruction/re-creation bias, a coinbase credit per block, optional explicit IntermediateRoot before Commit, a fresh state.New per block; in 1/3 of the blocks a Copy() is taken between or in the middle of a transaction (possibly with open frames), the copy runs its own suffix and is committed as a sibling block before or after the original; occasional triedb.Commit. non-trivial signature = (rule set, db kind, prefetcher, resurrection kinds seen, copy point kind)")
 	n := r.N(600, 40000)
 	if r.Race() {
 		n = r.N(120, 4000)
@@ -482,11 +489,12 @@ func run(r *vrt.Run) {
 	vrt.Par(n, 0, func(i int) {
 		rng := r.Rand("hist", i)
 		h := &hist{r: r, idx: i, fork: sd.Forks[i%len(sd.Forks)], prefetch: rng.Intn(2) == 0, counts: map[string]int{}, copyKind: "none"}
+		h.witness = h.prefetch && rng.Intn(3) == 0
 		kind := (i / len(sd.Forks)) % sd.NDBKinds
 		if rng.Intn(4) != 0 {
 			h.genesis = sd.GenGenesis(h.fork, rng)
 		}
-		r.Case("hist %d fork=%s db=%s prefetch=%v", i, h.fork.Name, sd.DBKindNames[kind], h.prefetch)
+		r.Case("hist %d fork=%s db=%s prefetch=%v witness=%v", i, h.fork.Name, sd.DBKindNames[kind], h.prefetch, h.witness)
 		func() {
 			h.env = sd.NewEnv(kind)
 			defer h.env.Close()
@@ -506,7 +514,7 @@ func run(r *vrt.Run) {
 			if len(tail) > 400 {
 				tail = tail[len(tail)-400:]
 			}
-			r.Violation(h.fail.FP, h.fail.Msg, map[string]any{"replay": fmt.Sprintf("VERIF_SEED=%d, history index %d", r.Seed, i), "fork": h.fork.Name, "db": sd.DBKindNames[kind], "prefetch": h.prefetch,
+			r.Violation(h.fail.FP, h.fail.Msg, map[string]any{"replay": fmt.Sprintf("VERIF_SEED=%d, history index %d", r.Seed, i), "fork": h.fork.Name, "db": sd.DBKindNames[kind], "prefetch": h.prefetch, "witness": h.witness,
 				"genesis": h.genesis, "failure": h.fail, "main_line_ops_tail": tail, "copy_ops": h.copyOps, "copy_kind": h.copyKind})
 			r.Eval("fail/" + h.fork.Name)
 			return
@@ -518,13 +526,16 @@ func run(r *vrt.Run) {
 		if h.prefetch {
 			r.Count("hist.prefetcher", 1)
 		}
+		if h.witness {
+			r.Count("hist.witness", 1)
+		}
 		if h.copyKind != "none" {
 			r.Count("hist.copy."+h.copyKind, 1)
 		}
 		for _, d := range h.desc {
 			r.Count("hist.resurrect."+d, 1)
 		}
-		r.Eval(fmt.Sprintf("%s/%s/pf%v/res[%s]/copy-%s", h.fork.Name, sd.DBKindNames[kind], h.prefetch, strings.Join(sorted(h.desc), ","), h.copyKind))
+		r.Eval(fmt.Sprintf("%s/%s/pf%v%v/res[%s]/copy-%s", h.fork.Name, sd.DBKindNames[kind], h.prefetch, h.witness, strings.Join(sorted(h.desc), ","), h.copyKind))
 		if r.WantSample() && i%11 == 0 {
 			ops := h.ops
 			if len(ops) > 30 {
@@ -545,6 +556,7 @@ func run(r *vrt.Run) {
 	r.Require("copies", 300/div)
 	r.Require("copies.open_frames", 20/div)
 	r.Require("hist.prefetcher", 100/div)
+	r.Require("hist.witness", 30/div)
 	r.Require("resurrect.same_block", 30/div)
 	r.Require("resurrect.same_block.had_storage", 10/div)
 	r.Require("resurrect.later_block", 30/div)
@@ -553,7 +565,7 @@ func run(r *vrt.Run) {
 		r.Require("hist.db."+k, 20/div)
 	}
 	r.Assume("reference account model lib/acctmodel and reference trie lib/refmpt/refrlp; histories restricted to interpreter-issued call patterns (lib/sdbdrive)")
-	r.Assume("witness collection (StartPrefetcher with a stateless.Witness) is not exercised; UBT database type not covered; persistence across process restart is covered by the crash/reopen checks of the database layers, here the same triedb instance is re-read")
+	r.Assume("witness collection is switched on in a third of the prefetcher histories only to show that it changes no root and no read (the witness content itself is not judged); UBT database type not covered; persistence across process restart is covered by the crash/reopen checks of the database layers, here the same triedb instance is re-read")
 }
 
 func sorted(s []string) []string {
